@@ -206,8 +206,13 @@ def source_object(s):
     o.valid = np.array(s['flags'], dtype=int)
     if s.get('int_arrays'):
         # photometry given as Python / numpy integers (legal: the setters accept any 1-d sequence)
-        o.flux = np.array([int(v) for v in s['flux']], dtype=np.int64)
-        o.error = np.array([int(v) for v in s['err']], dtype=np.int64) if all(float(v) == int(v) for v in s['err']) \
+        def narrow(vals):
+            m = max([abs(int(v)) for v in vals] + [1])
+            # (not int16: numpy evaluates log10 and divisions of 16-bit integers in float32, a precision matter and not
+            # what the properties are about)
+            return np.int32 if m < 2 ** 31 else np.int64
+        o.flux = np.array([int(v) for v in s['flux']], dtype=narrow(s['flux']))
+        o.error = np.array([int(v) for v in s['err']], dtype=narrow(s['err'])) if all(float(v) == int(v) for v in s['err']) \
             else np.array(s['err'], dtype=float)
     else:
         o.flux = np.array(s['flux'], dtype=float)
@@ -301,6 +306,15 @@ def fit_case_2d(draw, max_models=8, max_filters=6, max_sources=5, formats=('v1',
 # building the package of a fit case (2-D) and making a fitter
 # ------------------------------------------------------------------------------------------------
 
+def cube_valid_flags(case):
+    """the validity array of the cube's primary HDU: in a third of the cube packages some models are flagged 0 (the
+    property says a result lists EVERY model of the package; deterministic from the case so that replays reproduce it)"""
+    n = len(case['grid']['names'])
+    if (n + len(case['filters'])) % 3 != 0:
+        return None
+    return [0 if (i * 5 + n) % 3 == 0 else 1 for i in range(n)]
+
+
 def build_package_2d(model_dir, case):
     """Writes models.conf + convolved files (v1 / v2name) or the flux cube (v2*), parameters.fits."""
     names = case['grid']['names']
@@ -319,7 +333,7 @@ def build_package_2d(model_dir, case):
         wav = [filters[j]['wav'] for j in order]
         val = [[[flux[m][j] for j in order]] for m in range(len(names))]
         unc = [[[0.1 * flux[m][j] for j in order]] for m in range(len(names))]
-        pkgio.write_cube(os.path.join(model_dir, 'flux.fits'), names, wav, None, val, unc)
+        pkgio.write_cube(os.path.join(model_dir, 'flux.fits'), names, wav, None, val, unc, valid=cube_valid_flags(case))
 
 
 def make_fitter(model_dir, case, av_range, distance_range=None):
@@ -340,10 +354,14 @@ def make_fitter(model_dir, case, av_range, distance_range=None):
     else:
         fnames = [f['name'] for f in case['filters']]
     aps = np.array(case['theta']) * u.arcsec
+    alt = None
     if case.get('format') != 'v2wav' and pick == 1:
-        aps = aps.to(u.arcmin)
+        alt = aps.to(u.arcmin)
     elif pick == 2:
-        aps = aps.to(u.deg)
+        alt = aps.to(u.deg)
+    if alt is not None and np.all(alt.to(u.arcsec).value == aps.value):
+        # only exact round trips: a 1-ulp change of the angle is amplified without bound by a steep aperture table
+        aps = alt
     if distance_range is None:
         dr = [1., 2.] * u.kpc
     else:
@@ -489,7 +507,8 @@ def build_package_3d(model_dir, case):
         unc = [[[0.05 * v for v in row] for row in mod] for mod in val]
         unit = case.get('ap_unit', 'AU')
         aps = [grid['apertures'][a] * AP_UNIT_FACTOR[unit] for a in aidx]
-        pkgio.write_cube(os.path.join(model_dir, 'flux.fits'), names, wav, aps, val, unc, ap_unit=unit)
+        pkgio.write_cube(os.path.join(model_dir, 'flux.fits'), names, wav, aps, val, unc, ap_unit=unit,
+                         valid=cube_valid_flags(case))
 
 
 def distance_range_quantity(setup):
